@@ -126,6 +126,9 @@ theorem firstPass_visInv (cfg : Cfg) (hs : Setup cfg) (fs0 : FS) :
   leave := by
     intro f hf
     simp [firstPass] at hf
+  skipped := by
+    intro g hg
+    simp [firstPass] at hg
 
 /-! ## restoreFiles -/
 
@@ -300,6 +303,51 @@ theorem secondLeaveDir_inv (cfg : Cfg) (hs : Setup cfg) (fs0 : FS) (st : St) (n 
               rwa [← hdec] at this
             exact inv2_of_only cfg fs0 fs2 _ rel hne' base2.1 base2.2 hmeta
 
+/-- what `isDirBelow` establishes: the chain below a real `base` is real -/
+theorem isDirBelowFrom_real (fs : FS) (base : Path) (rest : List Name) (hp : PlainPath (base ++ rest))
+    (hr : RealFrom fs [] base) (h : isDirBelowFrom fs base rest = true) :
+    RealFrom fs [] (base ++ rest) := by
+  induction rest generalizing base with
+  | nil => simpa using hr
+  | cons c rest ih =>
+    simp only [isDirBelowFrom, Bool.and_eq_true] at h
+    have hbase : PlainPath base := fun n hn => hp n (List.mem_append_left _ hn)
+    have hc : PlainName c := hp c (by simp)
+    rw [lstat_real fs base c hbase hc hr] at h
+    have hdir : isDirAt fs (base ++ [c]) = true := by
+      unfold isDirAt
+      cases hg : fs.get (base ++ [c]) with
+      | none => rw [hg] at h; simp at h
+      | some e => rw [hg] at h; exact h.1
+    have e : base ++ c :: rest = (base ++ [c]) ++ rest := by simp
+    rw [e]
+    exact ih (base ++ [c]) (by rwa [e] at hp) (realFrom_snoc hr hdir) h.2
+
+/-- second pass `skippedDir`: guarded by `isDirBelow`, it deletes below a chain of real
+    directories only -/
+theorem secondSkippedDir_inv (cfg : Cfg) (hs : Setup cfg) (fs0 : FS) (st : St) (rel : Path)
+    (exp : List Name) (hrel : PlainPath rel) (h : Inv2 cfg fs0 st) :
+    Inv2 cfg fs0 (secondSkippedDir cfg st rel exp).1 := by
+  obtain ⟨hf, hr⟩ := h
+  have hD : PlainPath (cfg.dst ++ rel) := plainPath_append hs.plainDst hrel
+  unfold secondSkippedDir
+  split
+  · exact ⟨hf, hr⟩
+  · split
+    · exact ⟨hf, hr⟩
+    · rename_i hb
+      have hb' : isDirBelow cfg st.fs rel = true := by simpa using hb
+      unfold isDirBelow at hb'
+      simp only [Bool.and_eq_true] at hb'
+      have hreal := isDirBelowFrom_real st.fs cfg.dst rel hD hr hb'.2
+      have hd := removeUnexpectedFiles_frame cfg st.fs rel exp hD hreal
+      cases hru : removeUnexpectedFiles cfg st.fs rel exp with
+      | mk fs1 ok =>
+        rw [hru] at hd
+        simp only at hd ⊢
+        have hf2 : Frame cfg.dst st.fs fs1 := frame_mono hd (List.prefix_append _ _)
+        exact ⟨Frame.trans hf hf2, realFrom_dst_of_frame hf2 hr⟩
+
 theorem secondPass_visInv (cfg : Cfg) (hs : Setup cfg) (fs0 : FS) :
     VisInv (secondPass cfg) (Inv2 cfg fs0) where
   err := fun _ h => h
@@ -313,6 +361,11 @@ theorem secondPass_visInv (cfg : Cfg) (hs : Setup cfg) (fs0 : FS) :
     simp only [secondPass, Option.some.injEq] at hf
     subst hf
     exact secondLeaveDir_inv cfg hs fs0 st n rel exp hrel hne h
+  skipped := by
+    intro g hg st rel exp hrel h
+    simp only [secondPass, Option.some.injEq] at hg
+    subst hg
+    exact secondSkippedDir_inv cfg hs fs0 st rel exp hrel h
 
 /-! ## the whole restore -/
 
@@ -382,7 +435,8 @@ theorem outside_untouched (cfg : Cfg) (hs : Setup cfg) (tree : List Node) (fs0 :
     all four visitor call sites, and `restoreNodeMetadataTo` looks at the item first. Fails to
     build on the unmodified tree. -/
 theorem source_has_fixes :
-    chainFixOfSource = true ∧ metaFixOfSource = true ∧ secondPassShape = true := by decide
+    chainFixOfSource = true ∧ metaFixOfSource = true ∧ secondPassShape = true ∧
+    skippedDirShape = true := by decide
 
 end Restic.Props.C18
 
@@ -471,6 +525,32 @@ theorem hardlink_symlink_witness :
 
 theorem hardlink_symlink_fixed :
     outsideEq [nT] fsHL (restore ⟨[nT], selAll, .never, true, true⟩ treeHL fsHL false).fs = true := by
+  decide
+
+/-- `skippedDir` (--delete, nothing restored in `a`): a stale selected entry of a traversed
+    directory is removed … -/
+def selOnlyStale : Path → Bool → Bool × Bool := fun loc isDir =>
+  (loc == [nA, nS], isDir && loc == [nA])
+def fsSkip : FS := ⟨[([nT], .dir 0o755), ([nT, nA], .dir 0o755), ([nT, nA, nS], .file [1] 0o600),
+  ([nT, nA, nF], .file [2] 0o600), ([nO], .dir 0o755), ([nO, nS], .file [3] 0o600)]⟩
+def treeSkip : List Node := [dirNode nA [fileNode nF 0o644 1 0]]
+
+theorem skippedDir_deletes_inside :
+    (restore ⟨[nT], selOnlyStale, .always, true, true⟩ treeSkip fsSkip true).fs.get [nT, nA, nS] = none ∧
+    (restore ⟨[nT], selOnlyStale, .always, true, true⟩ treeSkip fsSkip true).fs.get [nT, nA, nF]
+      = some (.file [2] 0o600) ∧
+    outsideEq [nT] fsSkip (restore ⟨[nT], selOnlyStale, .always, true, true⟩ treeSkip fsSkip true).fs = true := by
+  decide
+
+/-- … but not through a symlink: with `t/a -> ../o` the guard `isDirBelow` fails and `o/s`
+    (which the filter would select) stays -/
+def fsSkipLink : FS := ⟨[([nT], .dir 0o755), ([nT, nA], .symlink false [dotdot, nO]),
+  ([nO], .dir 0o755), ([nO, nS], .file [3] 0o600)]⟩
+
+theorem skippedDir_not_through_symlink :
+    (restore ⟨[nT], selOnlyStale, .always, true, true⟩ treeSkip fsSkipLink true).fs.get [nO, nS]
+      = some (.file [3] 0o600) ∧
+    outsideEq [nT] fsSkipLink (restore ⟨[nT], selOnlyStale, .always, true, true⟩ treeSkip fsSkipLink true).fs = true := by
   decide
 
 /-! ## non-vacuity -/
